@@ -178,6 +178,13 @@ Record bbinv (b : bb) (ps : list pentry) (ridx : list nat) : Prop := {
   bi_ridx_bound : forall j, In j ridx -> (j < length ps)%nat \/ (j = 0%nat /\ ps = []);
   bi_ridx_shared : forall j, In j ridx -> (j < length ps)%nat -> pe_shared (nth j ps dummy_pe) = 0;
   bi_cnt0 : ps = [] -> bb_counter b = 0;
+  (* cadence: restart points at entries 0, I, 2I, ...; the longest common prefix elided in between *)
+  bi_cad_ridx : forall i, (i < length ridx)%nat -> nth i ridx 0%nat = (i * N.to_nat (bb_interval b))%nat;
+  bi_cad_cnt : ps <> [] -> (N.to_nat (bb_counter b) + N.to_nat (bb_interval b) * (length ridx - 1) = length ps)%nat /\ 1 <= bb_counter b;
+  bi_share : forall j, (j < length ps)%nat ->
+     pe_shared (nth j ps dummy_pe) =
+     if (j mod N.to_nat (bb_interval b) =? 0)%nat then 0
+     else lcp (pe_key (nth (j - 1) ps dummy_pe)) (pe_key (nth j ps dummy_pe));
 }.
 
 Lemma bbinv_fresh b : bb_ok b -> bb_buf b = [] -> bb_last_key b = [] -> bb_restarts b = [0] -> bb_counter b = 0 ->
@@ -195,6 +202,9 @@ Proof.
   - intros j [<-|[]]. right. split; reflexivity.
   - intros j _ Hj. cbn in Hj. lia.
   - intros _. exact Hc.
+  - intros i Hi. cbn in Hi. assert (i = 0%nat) by lia. subst. reflexivity.
+  - congruence.
+  - intros j Hj. cbn in Hj. lia.
 Qed.
 Lemma bbinv_init i : 1 <= i -> bbinv (bb_init i) [] [0%nat].
 Proof. intros H. apply bbinv_fresh; try reflexivity. unfold bb_ok, bb_init; cbn; repeat split; lia. Qed.
@@ -210,13 +220,20 @@ Proof. reflexivity. Qed.
 Lemma last_app_one {A} (l : list A) x d : last (l ++ [x]) d = x.
 Proof. induction l as [|y l IH]; [reflexivity|]. cbn [app]. destruct (l ++ [x]) eqn:E; [destruct l; discriminate|]. exact IH. Qed.
 
+Lemma last_map_nth (ps : list pentry) : ps <> [] -> last (map pe_key ps) [] = pe_key (nth (length ps - 1) ps dummy_pe).
+Proof.
+  intros H. destruct (exists_last H) as (l & x & ->). rewrite map_app. cbn [map].
+  rewrite last_app_one, app_length. cbn [length]. rewrite app_nth2 by lia.
+  replace (length l + 1 - 1 - length l)%nat with 0%nat by lia. reflexivity.
+Qed.
+
 (* one add: the ghost list grows by the entry, with the key and value that were passed *)
 Lemma bb_add_inv b ps ridx key val b' : bbinv b ps ridx -> len key < 2 ^ 32 -> len val < 2 ^ 32 ->
   bb_add b key val = Ok b' ->
   exists p ridx', bbinv b' (ps ++ [p]) ridx' /\ pe_key p = key /\ pe_val p = val /\
                   bb_interval b' = bb_interval b.
 Proof.
-  intros Hb Hk Hv Ha. destruct Hb as [Hok Hbuf Hleg Hlast Hres Hhd Hne Hinc Hbound Hsh Hc0].
+  intros Hb Hk Hv Ha. destruct Hb as [Hok Hbuf Hleg Hlast Hres Hhd Hne Hinc Hbound Hsh Hc0 Hcr Hcc Hshare].
   unfold bb_add in Ha. destruct Hok as (Hcnt & Hfin & Hint). rewrite Hfin in Ha.
   replace (bb_counter b <=? bb_interval b) with true in Ha by lia. cbn [negb orb] in Ha.
   inversion Ha; subst b'; clear Ha. cbn [bb_interval] in *.
@@ -236,6 +253,10 @@ Proof.
   assert (Henc : bb_buf b ++ entry_encode shared key val = enc_all (ps ++ [p])).
   { rewrite enc_all_app, enc_all_one, Hbuf. reflexivity. }
   assert (Hlast' : key = last (map pe_key (ps ++ [p])) []) by (rewrite map_app; cbn [map]; rewrite last_app_one; reflexivity).
+  assert (Hlen1 : ps = [] -> length ridx = 1%nat).
+  { intros E. destruct ridx as [|a [|c rest]]; [cbn in Hne; lia|reflexivity|]. exfalso.
+    pose proof (Hinc 0%nat 1%nat ltac:(cbn; lia)) as H. cbn in H, Hhd.
+    destruct (Hbound c ltac:(cbn; auto)) as [Hl|[-> _]]; [subst ps; cbn in Hl; lia|lia]. }
   exists p. destruct share eqn:Eshare.
   - (* within a restart run *)
     exists ridx. splits; try reflexivity. constructor; cbn [bb_buf bb_last_key bb_restarts bb_counter bb_interval bb_finished]; try assumption.
@@ -247,6 +268,24 @@ Proof.
       * rewrite app_nth1 by exact Hl. apply Hsh; assumption.
       * subst ps. cbn [app nth]. unfold p. cbn [pe_shared]. unfold shared. rewrite Hlast. reflexivity.
     + intros E. destruct ps; discriminate.
+    + intros _. split; [|lia]. destruct ps as [|p0 ps0] eqn:Eps.
+      * rewrite (Hc0 eq_refl). cbn [app length]. rewrite (Hlen1 eq_refl). rewrite Nat.sub_diag, Nat.mul_0_r. reflexivity.
+      * rewrite <- Eps in *. assert (Hne' : ps <> []) by (rewrite Eps; discriminate).
+        destruct (Hcc Hne') as [Hcnt' _]. rewrite app_length. cbn [length]. lia.
+    + intros j Hj. rewrite app_length in Hj. cbn [length] in Hj.
+      destruct (Nat.lt_ge_cases j (length ps)) as [Hl|Hg].
+      * rewrite !app_nth1 by lia. apply Hshare, Hl.
+      * assert (j = length ps) by lia. subst j. rewrite app_nth2 by lia. rewrite Nat.sub_diag. cbn [nth]. unfold p at 1 2. cbn [pe_shared pe_key].
+        unfold shared. destruct ps as [|p0 ps0] eqn:Eps.
+        -- cbn [length]. rewrite Nat.mod_0_l by lia. cbn. rewrite Hlast. reflexivity.
+        -- rewrite <- Eps in *. assert (Hne' : ps <> []) by (rewrite Eps; discriminate).
+           destruct (Hcc Hne') as [Hcnt' Hc1].
+           assert (Hmod : (length ps mod N.to_nat (bb_interval b) = N.to_nat (bb_counter b))%nat).
+           { rewrite <- Hcnt'. rewrite (Nat.mul_comm (N.to_nat (bb_interval b))), Nat.mod_add by lia.
+             apply Nat.mod_small. unfold share in Eshare. lia. }
+           rewrite Hmod. replace (N.to_nat (bb_counter b) =? 0)%nat with false by lia.
+           rewrite app_nth1 by (destruct ps; [congruence|cbn; lia]).
+           rewrite <- last_map_nth by exact Hne'. rewrite <- Hlast. reflexivity.
   - (* a new restart point *)
     assert (Hps : ps <> []).
     { intros E. specialize (Hc0 E). unfold share in Eshare. lia. }
@@ -269,6 +308,22 @@ Proof.
       * specialize (Hall j Hj). rewrite app_nth1 by exact Hall. apply Hsh; assumption.
       * rewrite app_nth2 by lia. rewrite Nat.sub_diag. reflexivity.
     + intros E. destruct ps; discriminate.
+    + intros i Hi. rewrite app_length in Hi. cbn [length] in Hi.
+      destruct (Nat.lt_ge_cases i (length ridx)) as [Hl|Hg]; [rewrite app_nth1 by lia; apply Hcr, Hl|].
+      assert (i = length ridx) by lia. subst i. rewrite app_nth2 by lia. rewrite Nat.sub_diag. cbn [nth].
+      destruct (Hcc Hps) as [Hcnt' _]. rewrite <- Hcnt'. unfold share in Eshare.
+      replace (N.to_nat (bb_counter b)) with (N.to_nat (bb_interval b)) by lia.
+      destruct (length ridx) as [|m]; [lia|]. cbn [Nat.sub]. rewrite Nat.sub_0_r. cbn [Nat.mul]. lia.
+    + intros _. split; [|lia]. destruct (Hcc Hps) as [Hcnt' _]. rewrite !app_length. cbn [length]. unfold share in Eshare.
+      replace (N.to_nat (0 + 1)) with 1%nat by lia. replace (length ridx + 1 - 1)%nat with (S (length ridx - 1)) by lia.
+      rewrite Nat.mul_succ_r. lia.
+    + intros j Hj. rewrite app_length in Hj. cbn [length] in Hj.
+      destruct (Nat.lt_ge_cases j (length ps)) as [Hl|Hg].
+      * rewrite !app_nth1 by lia. apply Hshare, Hl.
+      * assert (j = length ps) by lia. subst j. rewrite app_nth2 by lia. rewrite Nat.sub_diag. cbn [nth]. unfold p at 1. cbn [pe_shared].
+        destruct (Hcc Hps) as [Hcnt' _]. rewrite <- Hcnt'. unfold share in Eshare.
+        replace (N.to_nat (bb_counter b)) with (N.to_nat (bb_interval b) * 1)%nat by lia.
+        rewrite <- Nat.mul_add_distr_l, Nat.mul_comm, Nat.mod_mul by lia. reflexivity.
 Qed.
 
 (* ---- finishing the block and decoding it ------------------------------------------------- *)
@@ -305,7 +360,7 @@ Qed.
 Theorem block_init_finish b ps ridx : bbinv b ps ridx -> len (bb_finish b) < 2 ^ 32 ->
   block_init (bb_finish b) = Some (mkab ps (map (offset_of ps) ridx) (len (bb_finish b)) false).
 Proof.
-  intros Hb Hsz. destruct Hb as [Hok Hbuf Hleg Hlast Hres Hhd Hne Hinc Hbound Hsh Hc0].
+  intros Hb Hsz. destruct Hb as [Hok Hbuf Hleg Hlast Hres Hhd Hne Hinc Hbound Hsh Hc0 Hcr Hcc Hshare].
   assert (Hsmall : UINT32_MAX <? len (bb_buf b) = false).
   { unfold bb_finish in Hsz. rewrite len_app in Hsz. unfold UINT32_MAX. change (2 ^ 32) with 4294967296 in Hsz. lia. }
   unfold bb_finish in *. rewrite Hsmall in *. unfold nrestarts in *.
@@ -353,7 +408,7 @@ Theorem finish_wfb b ps ridx sz w : bbinv b ps ridx -> ps <> [] ->
   (forall i j, (i < j < length ps)%nat -> bcmp (pe_key (nth i ps dummy_pe)) (pe_key (nth j ps dummy_pe)) = Lt) ->
   wfb (mkab ps (map (offset_of ps) ridx) sz w) ridx.
 Proof.
-  intros Hb Hps Hkeys. destruct Hb as [Hok Hbuf Hleg Hlast Hres Hhd Hne Hinc Hbound Hsh Hc0].
+  intros Hb Hps Hkeys. destruct Hb as [Hok Hbuf Hleg Hlast Hres Hhd Hne Hinc Hbound Hsh Hc0 Hcr Hcc Hshare].
   assert (Hall : forall j, In j ridx -> (j < length ps)%nat).
   { intros j Hj. destruct (Hbound j Hj) as [Hl|[_ E]]; [exact Hl|contradiction]. }
   constructor; unfold nentries, off_at, key_at, entry_at, restart_at; cbn [ab_entries ab_restarts].
@@ -376,6 +431,6 @@ Qed.
 Lemma block_init_finish_empty b : bbinv b [] [0%nat] ->
   block_init (bb_finish b) = Some (mkab [] [0] 8 false).
 Proof.
-  intros Hb. destruct Hb as [Hok Hbuf _ _ Hres _ _ _ _ _ _].
+  intros Hb. destruct Hb as [Hok Hbuf _ _ Hres _ _ _ _ _ _ _ _ _].
   unfold bb_finish, nrestarts. rewrite Hbuf, Hres. vm_compute. reflexivity.
 Qed.
